@@ -224,6 +224,8 @@ def run_scenario(ex, fnode, c, scen):
         for k, e in c.lets.items():
             extra[k] = S.spec_eval_term(e, env_pre, extra)
             env_pre.extra[k] = extra[k]
+            if z3.is_expr(extra[k]) and z3.is_const(extra[k]) and str(extra[k]).startswith('ghost.'):
+                ex.inputs[str(extra[k])] = extra[k]
         ex.spec_lets = extra
         for i, r in enumerate(c.requires):
             lab, e = r if isinstance(r, tuple) else ('req%d' % i, r)
